@@ -19,8 +19,8 @@ Driver `genc`: the codec line protocol (`harness/CODEC_PROTOCOL.md`) answered by
 Round 2 (`Model/GenCX.lean`; any of these options routes the request through `serializeCX` / `deserializeCX`):
 `,place=above|below|far` evaluates the address assertions of `nunavutCopyBits` with the buffer at address 4096 and
 every other object (primitive locals, member arrays) directly above the buffer / directly below it / far away;
-`,beforefix` uses the overlap assertions as they were before /repo 443d39c, `,hg` guards `src != dst` by
-`length_bits > 0`; `,ovr=<c>` is `enable_override_variable_array_capacity` with every non-bool variable-length array
+`,beforefix` uses the overlap assertions as they were before /repo 443d39c, `,nohg` the unguarded `src != dst` as it
+was before /repo 23731cd (`,hg`: the guarded one, default); `,ovr=<c>` is `enable_override_variable_array_capacity` with every non-bool variable-length array
 capacity macro defined as `min(c, DSDL capacity)`, `,nocheck` = `<T>_DISABLE_SERIALIZATION_BUFFER_CHECK_` defined.
 
 The request syntax (types, values, hex) is that of `Drivers/Codec.lean`; the parser below is a copy of that file's
@@ -217,11 +217,11 @@ def neverOrc : AOff → Bool := fun _ => false
 structure XMode where
   place : Option String := none
   fixed : Bool := true
-  hg : Bool := false
+  hg : Bool := true
   ovr : Option Nat := none
   noCheck : Bool := false
 
-def XMode.active (m : XMode) : Bool := m.place.isSome || m.ovr.isSome || m.noCheck || !m.fixed || m.hg
+def XMode.active (m : XMode) : Bool := m.place.isSome || m.ovr.isSome || m.noCheck || !m.fixed || !m.hg
 
 /-- address of the user's buffer in the driver's placements -/
 def bufBase : Nat := 4096
@@ -258,6 +258,7 @@ def parseOpts (s : String) : Option (Opts × XMode) :=
       | ["place", p] => if p = "above" || p = "below" || p = "far" then some (o, { m with place := some p }) else none
       | ["beforefix"] => some (o, { m with fixed := false })
       | ["hg"] => some (o, { m with hg := true })
+      | ["nohg"] => some (o, { m with hg := false })
       | ["ovr", n] => n.toNat?.map fun n => (o, { m with ovr := some n })
       | ["nocheck"] => some (o, { m with noCheck := true })
       | _ => none) base
